@@ -28,6 +28,12 @@ func recOf(cx *layer4.Connection) *Recorder {
 		return r
 	}
 	if a := cx.RemoteAddr(); a != nil {
+		// real sockets: the pair of addresses (a client port alone may be in use towards another listener at the same time)
+		if l := cx.LocalAddr(); l != nil {
+			if r := RecByAddr(l.String() + "|" + a.String()); r != nil {
+				return r
+			}
+		}
 		return RecByAddr(a.String())
 	}
 	return nil
